@@ -1262,15 +1262,25 @@ def check_C15(ctx):
             if ham.get_taxon_by_name(g.name) is not g.taxon:
                 bad.append('get_taxon_by_name does not return the ancestral genome\'s node')
         allg = ags + ham.get_list_extant_genomes()
-        for _ in range(10):
+        # genome sets of two to four members, in any relative position (a member may be an ancestor of others)
+        for _ in range(16):
             if len(allg) < 2:
                 break
-            a, b = ctx.rng.sample(allg, 2)
-            mp = gen.mrca_paths([d.path[a.taxon], d.path[b.taxon]])
+            gs_ = ctx.rng.sample(allg, min(len(allg), ctx.rng.choice([2, 2, 3, 3, 4])))
+            if ags and ctx.rng.random() < 0.5:
+                # bias: an ancestral genome together with genomes below it and one outside its clade
+                anc = ctx.rng.choice(ags)
+                below = [g for g in allg if g is not anc and is_anc(d.path[anc.taxon], d.path[g.taxon])]
+                outside = [g for g in allg if not is_anc(d.path[anc.taxon], d.path[g.taxon])]
+                if below and outside:
+                    gs_ = [anc, ctx.rng.choice(below), ctx.rng.choice(outside)]
+            ctx.counts['mrca_sets'] += 1
+            ctx.dist['mrca_set_size=%d' % len(gs_)] += 1
+            mp = gen.mrca_paths([d.path[g.taxon] for g in gs_])
             try:
-                got = ham.get_ancestral_genome_by_mrca_of_genome_set({a, b})
+                got = ham.get_ancestral_genome_by_mrca_of_genome_set(set(gs_))
                 if d.path[got.taxon] != mp:
-                    bad.append('MRCA lookup returns a genome at another node than the common ancestor')
+                    bad.append('MRCA lookup of %d genomes returns a genome at another node than their common ancestor' % len(gs_))
             except KeyError:
                 if mp in d.genome_at and mp in d.internals:
                     bad.append('MRCA lookup raises KeyError although the common ancestor has a genome')
@@ -1718,15 +1728,22 @@ def signature(ham, with_profile=True, max_pairs=60, rng=None):
             sig['profile'] = sorted((p, nbr, tuple(sorted(f.items(), key=str))) for p, (nbr, f, _) in tab.items())
         except Exception as e:  # noqa
             sig['profile'] = 'error:' + type(e).__name__
+        # all per-family profiles are requested first and read afterwards: a profile must not change because
+        # another one was computed in between (results are values, not views on shared state)
         fams = []
+        built = []
         for hid, h in ham.top_level_hogs.items():
             try:
-                tm = ham.create_tree_profile(hog=h).treemap
-                root = d.path[h.genome.taxon]
-                fams.append((K(h), sorted((impl.node_path(n) + root, n.nbr_genes, n.dupl, n.lost, n.retained, n.duplication)
-                                          for n in tm.traverse())))
+                built.append((h, ham.create_tree_profile(hog=h).treemap))
             except Exception as e:  # noqa
-                fams.append((K(h), 'error:' + type(e).__name__))
+                built.append((h, e))
+        for h, tm in built:
+            if isinstance(tm, Exception):
+                fams.append((K(h), 'error:' + type(tm).__name__))
+                continue
+            root = d.path[h.genome.taxon]
+            fams.append((K(h), sorted((impl.node_path(n) + root, n.nbr_genes, n.dupl, n.lost, n.retained, n.duplication)
+                                      for n in tm.traverse())))
         sig['family_profiles'] = sorted(fams, key=repr)
     return sig
 
